@@ -7,6 +7,7 @@ use rustc_middle::mir::{
     StatementKind, TerminatorKind, UnwindAction,
 };
 use rustc_middle::ty::{self, Instance, TyCtxt, TypingEnv};
+use rustc_middle::ty::print::PrintTraitRefExt;
 use rustc_span::def_id::{DefId, LocalDefId};
 use rustc_span::Span;
 use std::fmt::Write as _;
@@ -308,6 +309,7 @@ pub fn dump_fn<'tcx>(cx: &Ctx<'tcx>, ldid: LocalDefId, out: &mut String) {
     };
     // enclosing impl / trait
     let mut impl_trait = "null".to_string();
+    let mut impl_trait_full = "null".to_string();
     let mut self_ty = "null".to_string();
     let mut self_adt = "null".to_string();
     let mut in_trait = "null".to_string();
@@ -318,7 +320,9 @@ pub fn dump_fn<'tcx>(cx: &Ctx<'tcx>, ldid: LocalDefId, out: &mut String) {
         match tcx.def_kind(p) {
             DefKind::Impl { .. } => {
                 if let Some(tr) = tcx.impl_opt_trait_ref(p) {
-                    impl_trait = jstr(&cx.path(tr.instantiate_identity().skip_norm_wip().def_id));
+                    let trr = tr.instantiate_identity().skip_norm_wip();
+                    impl_trait = jstr(&cx.path(trr.def_id));
+                    impl_trait_full = jstr(&ty::print::with_no_trimmed_paths!(format!("{}", trr.print_only_trait_path())));
                 }
                 let st = tcx.type_of(p).instantiate_identity().skip_norm_wip();
                 self_ty = jstr(&cx.ty_str(st));
@@ -339,7 +343,7 @@ pub fn dump_fn<'tcx>(cx: &Ctx<'tcx>, ldid: LocalDefId, out: &mut String) {
 
     let _ = write!(
         out,
-        "{{\"t\":\"fn\",\"id\":{},\"kind\":{},\"vis\":\"{}\",\"file\":{},\"line\":{},\"macros\":{},\"rfile\":{},\"rline\":{},\"derive\":{},\"impl_trait\":{},\"self_ty\":{},\"self_adt\":{},\"in_trait\":{},\"parent_fn\":{},\"name\":{},\"argc\":{},",
+        "{{\"t\":\"fn\",\"id\":{},\"kind\":{},\"vis\":\"{}\",\"file\":{},\"line\":{},\"macros\":{},\"rfile\":{},\"rline\":{},\"derive\":{},\"impl_trait\":{},\"impl_trait_full\":{},\"self_ty\":{},\"self_adt\":{},\"in_trait\":{},\"parent_fn\":{},\"name\":{},\"argc\":{},",
         jstr(&cx.path(did)),
         jstr(&format!("{:?}", kind)),
         vis,
@@ -350,6 +354,7 @@ pub fn dump_fn<'tcx>(cx: &Ctx<'tcx>, ldid: LocalDefId, out: &mut String) {
         dl.rline,
         jopt(&derive),
         impl_trait,
+        impl_trait_full,
         self_ty,
         self_adt,
         in_trait,
